@@ -4,6 +4,7 @@ import (
 	"bytes"
 	"encoding/binary"
 	"encoding/gob"
+	"errors"
 	"fmt"
 	"sync"
 
@@ -86,6 +87,22 @@ func (idx *BigIndexWriter) AddRow(values map[string]string) (uint32, error) {
 	}
 
 	return rowID, nil
+}
+
+// Close releases the temporary database's write transaction the writer keeps
+// open between AddRow calls. It has to be called when a writer is abandoned
+// without Flush (e.g. because reading the input failed): closing the temporary
+// database otherwise waits for that transaction forever. Calling it after
+// Flush is harmless.
+func (idx *BigIndexWriter) Close() error {
+	idx.mtx.Lock()
+	defer idx.mtx.Unlock()
+
+	if err := idx.tempTx.Rollback(); err != nil && !errors.Is(err, bbolt.ErrTxClosed) {
+		return fmt.Errorf("failed to roll back: %w", err)
+	}
+
+	return nil
 }
 
 func (idx *BigIndexWriter) Flush() error {
